@@ -7,7 +7,12 @@ From GV Require Import Model.Chain.
 Definition kstep (kind : nat) (x : Z) (_ : unit) : Z * bool :=
   match kind with
   | O => let acc := Z.eqb (x mod 3) 0 in ((if acc then (2 * x + 1) mod 17 else x)%Z, acc)
-  | _ => let acc := Z.eqb (x mod 2) 0 in ((if acc then (x + 3) mod 11 else x)%Z, acc)
+  | 1%nat => let acc := Z.eqb (x mod 2) 0 in ((if acc then (x + 3) mod 11 else x)%Z, acc)
+  | _ =>
+      (* a backward sweep: lax.scan(reverse=True) over the digits 1,2,3 with the carry h <- (2h + d) mod 13 *)
+      let acc := negb (Z.eqb (x mod 3) 1) in
+      let h := fold_left (fun h d => ((2 * h + d) mod 13)%Z) (rev [1; 2; 3]%Z) x in
+      ((if acc then h else x)%Z, acc)
   end.
 
 Inductive ccase :=
